@@ -14,3 +14,10 @@ def queries(tier):
 
 META = {"assumptions": sorted({a for m in _mods for a in getattr(m, "META", {}).get("assumptions", [])}),
         "outside": sorted({a for m in _mods for a in getattr(m, "META", {}).get("outside", [])})}
+
+MANIFEST = {
+ "level_text": 'EINTR injected by the kernel/clock models at a symbolic subset of the invocations of every blocking system call the real code makes (sleep with all 2^32 durations and havocked errno; sem/shm open and wait; socket transfer/poll/accept/connect): outcome equals the uninterrupted run, never an interrupted-call error, sleep returns 0 only after the requested time.' + " Parts: " + ", ".join(PARTS) + ". Bounded model checking: every query is decided by the SAT/SMT back end for all symbolic choices inside the stated script/bound.",
+ "level_note": "Trusted: CBMC 6.11, the environment models named in evidence.assumptions (allocator ledger, kernel_ipc, kernel_sock, thread_emul, dir/dl models, clock model); scripts are representative call sequences, not all sequences; bounds per query in evidence.coverage.bounds. " + " | ".join(getattr(m, "MANIFEST", {}).get("level_note", "") for m in _mods)[:1500],
+ "technique": "CBMC bounded symbolic execution of the real units with symbolic fault index / fault schedule in the environment models",
+ "design_ref": "DESIGN.md §3 C19",
+}
